@@ -2,8 +2,9 @@
    predicates) to OCaml. Only ExtrOcamlBasic is loaded; Z, positive, nat stay datatypes. *)
 Require Extraction.
 Require Import ExtrOcamlBasic.
-From IronCalc Require Import Base.Prelude Codec.RefA1 Syntax.Token Syntax.Ast Syntax.Printer Syntax.Parser Syntax.Shape.
+From IronCalc Require Import Base.Prelude Codec.RefA1 Syntax.Token Syntax.Ast Syntax.Printer Syntax.Parser Syntax.Shape Syntax.FullRange.
 Extraction Language OCaml.
 Extraction "model_c09.ml"
   Printer.print Printer.print_fixed Parser.parse Parser.parse_fuel Ast.size Ast.kind_of
-  Shape.glue Shape.glue_free Shape.bad_pairs Shape.no_bad Shape.image Shape.fragment Shape.kind_name.
+  Shape.glue Shape.glue_free Shape.bad_pairs Shape.no_bad Shape.image Shape.fragment Shape.kind_name
+  FullRange.full_row FullRange.full_column.
